@@ -1,0 +1,131 @@
+//go:build verif
+
+// Contracts for package io (comment-only; read by /verif's VC generator, never compiled into
+// anything executable). See /verif/DESIGN.md for the contract language.
+package io
+
+// Vocabulary: a = the scanner's content as a rune sequence, n = len(a).
+// position p ranges over [-1, n]; p == n means the end-of-input slot has been consumed.
+//
+//@ spec chr(a seq[rune], i int) rune = (i < 0 || i >= len(a)) ? -1 : a[i]
+//@ spec iseol(r rune) bool = r == 10 || r == 13
+//
+// the line-break rule of the property statement: LF always, CR unless adjacent to LF
+//@ spec brk(a seq[rune], i int) bool =
+//@     chr(a, i) == 10 || (chr(a, i) == 13 && chr(a, i-1) != 10 && chr(a, i+1) != 10)
+//
+// line and column after a fresh forward scan up to and including position p; the end-of-input
+// slot (p == n) takes one column ("the end-of-input token sits one column past the last character")
+//@ rec L(a seq[rune], p int) int decreases p + 1 =
+//@     p < 0 ? 1 : (p >= len(a) ? L(a, p-1) : L(a, p-1) + (brk(a, p) ? 1 : 0))
+//@ rec C(a seq[rune], p int) int decreases p + 1 =
+//@     p < 0 ? 0 : (p >= len(a) ? C(a, p-1) + 1 : (brk(a, p) ? 0 : (iseol(chr(a, p)) ? C(a, p-1) : C(a, p-1) + 1)))
+//
+// 1 <= L(p) <= p + 2 and 0 <= C(p) <= p + 1: line and column counters cannot overflow
+//@ lemma boundsLC(a seq[rune], p int)
+//@   tags C11
+//@   requires p >= -1 && p <= len(a)
+//@   ensures 1 <= L(a, p) && L(a, p) <= p + 2 && 0 <= C(a, p) && C(a, p) <= p + 1
+//@   decreases p + 1
+//@   induction a, p - 1
+//@   trigger L(a, p)
+//@   trigger C(a, p)
+//
+//@ pred scanInv(s *StringScanner) = s != nil && -1 <= s.position && s.position <= len(s.content) &&
+//@     s.line == L(seq(s.content), s.position) && s.column == C(seq(s.content), s.position)
+//
+//@ func NewStringScanner
+//@   ensures[C11] fresh(result) && scanInv(result) && result.position == -1
+//@   ensures[C11] len(result.content) == rlen(content)
+//@   ensures[C11] forall i int :: 0 <= i && i < rlen(content) ==> result.content[i] == content[i]
+//@   assigns nothing
+//@   nopanic
+//
+//@ func (c *StringScanner) charAt
+//@   requires c != nil
+//@   ensures[C11] result == chr(seq(c.content), position)
+//@   assigns nothing
+//@   nopanic
+//
+//@ func (c *StringScanner) isLine
+//@   ensures[C11] result == (charAt == 10 || (charAt == 13 && charBefore != 10 && charAfter != 10))
+//@   assigns nothing
+//@   nopanic
+//
+//@ func (c *StringScanner) isColumn
+//@   ensures[C11] result == !iseol(charAt)
+//@   assigns nothing
+//@   nopanic
+//
+//@ func (c *StringScanner) Read
+//@   requires scanInv(c)
+//@   ensures[C11] scanInv(c)
+//@   ensures[C11] old(c.position) < len(c.content) ==> c.position == old(c.position) + 1 && result == chr(seq(c.content), c.position)
+//@   ensures[C11] old(c.position) >= len(c.content) ==> c.position == old(c.position) && result == -1
+//@   assigns c.position, c.line, c.column
+//@   nopanic
+//
+//@ func (c *StringScanner) Line
+//@   requires c != nil
+//@   ensures[C11] result == c.line
+//@   assigns nothing
+//@   nopanic
+//
+//@ func (c *StringScanner) Column
+//@   requires c != nil
+//@   ensures[C11] result == c.column
+//@   assigns nothing
+//@   nopanic
+//
+//@ func (c *StringScanner) Peek
+//@   requires scanInv(c)
+//@   ensures[C11] result == chr(seq(c.content), c.position + 1)
+//@   assigns nothing
+//@   nopanic
+//
+// "the peeked line and column are those reported after the next read": after a Read the
+// position is min(position+1, n), so the peeks must equal L and C there.
+//@ func (c *StringScanner) PeekLine
+//@   requires scanInv(c)
+//@   ensures[C11,C12] result == L(seq(c.content), min(c.position + 1, len(c.content)))
+//@   assigns nothing
+//@   nopanic
+//
+//@ func (c *StringScanner) PeekColumn
+//@   requires scanInv(c)
+//@   ensures[C11,C12] result == C(seq(c.content), min(c.position + 1, len(c.content)))
+//@   assigns nothing
+//@   nopanic
+//
+// "unread steps back exactly one read and is a no-op at the start"
+//@ func (c *StringScanner) Unread
+//@   requires scanInv(c)
+//@   ensures[C11] scanInv(c)
+//@   ensures[C11] c.position == (old(c.position) >= 0 ? old(c.position) - 1 : -1)
+//@   assigns c.position, c.line, c.column
+//@   nopanic
+//@   loop 0
+//@     invariant 0 <= position && position <= c.position + 1
+//@     invariant -1 <= c.position && c.position < len(c.content)
+//@     invariant c.position == old(c.position) - 1
+//@     invariant c.line == L(seq(c.content), position - 1) && c.column == C(seq(c.content), position - 1)
+//@     invariant charAt == chr(seq(c.content), position - 1) && charAfter == chr(seq(c.content), position)
+//@     decreases c.position - position + 1
+//
+//@ func (c *StringScanner) UnreadMany
+//@   requires scanInv(c)
+//@   ensures[C11] scanInv(c)
+//@   ensures[C11] c.position == max(old(c.position) - max(count, 0), -1)
+//@   assigns c.position, c.line, c.column
+//@   nopanic
+//@   loop 0
+//@     invariant scanInv(c)
+//@     invariant count <= old(count)
+//@     invariant c.position == max(old(c.position) - (max(old(count), 0) - max(count, 0)), -1)
+//@     decreases count
+//
+//@ func (c *StringScanner) Reset
+//@   requires c != nil
+//@   ensures[C11] scanInv(c) && c.position == -1
+//@   assigns c.position, c.line, c.column
+//@   nopanic
